@@ -5,21 +5,29 @@
    every behaviour of the state machine of a given length into a script for
    the real library.
 
-     closed (no session):  openOK | openFailPw | openFailStatus
-     open   (a session):   cmd | cmdLost | closeOK | closeErr | closeLost
+     closed (no session):           openOK | openFailPw | openFailStatus
+     open   (a session):            cmd | cmdLost | closeOK | closeErr | closeLost
+     failed (a Close that failed):  openOK | closeAgainOK | closeAgainLost
 
-   A close ends the session whatever the BMC answered (or did not answer): the
-   library has nothing left to do with it, and says so in its gauge. *)
+   A Close counts as a close whatever the BMC answered (or did not answer): the
+   gauge goes down.  The caller may try the Close again on the same session
+   value (the request continues the session's sequence numbers), and every
+   such call is counted as another close - opens minus closes, literally. *)
 EXTENDS Integers, Sequences
 
 OpsClosed == <<"openOK", "openFailPw", "openFailStatus">>
 OpsOpen   == <<"cmd", "cmdLost", "closeOK", "closeErr", "closeLost">>
-Legal(open) == IF open THEN OpsOpen ELSE OpsClosed
-IsClose(op) == op \in {"closeOK", "closeErr", "closeLost"}
+OpsFailed == <<"openOK", "closeAgainOK", "closeAgainLost">>
+Legal(st) == CASE st = "open" -> OpsOpen [] st = "failed" -> OpsFailed [] OTHER -> OpsClosed
+IsClose(op) == op \in {"closeOK", "closeErr", "closeLost", "closeAgainOK", "closeAgainLost"}
+IsReClose(op) == op \in {"closeAgainOK", "closeAgainLost"}
 IsOpenTry(op) == op \in {"openOK", "openFailPw", "openFailStatus"}
-After(open, op) == IF op = "openOK" THEN TRUE ELSE IF IsClose(op) THEN FALSE ELSE open
+After(st, op) == CASE op = "openOK" -> "open"
+                   [] op \in {"closeOK", "closeAgainOK"} -> "closed"
+                   [] op \in {"closeErr", "closeLost", "closeAgainLost"} -> "failed"
+                   [] OTHER -> st
 \* what the call returns to the caller
-Fails(op) == op \in {"openFailPw", "openFailStatus", "cmdLost", "closeErr", "closeLost"}
+Fails(op) == op \in {"openFailPw", "openFailStatus", "cmdLost", "closeErr", "closeLost", "closeAgainLost"}
 
 \* every sequence of n operations that is legal from the state `open`
 RECURSIVE Paths(_, _)
@@ -32,9 +40,10 @@ OpenAfter(open, p) == IF p = <<>> THEN open ELSE OpenAfter(After(open, Head(p)),
 \* a short name for a path (script identifiers)
 Code(op) == CASE op = "openOK" -> "O" [] op = "openFailPw" -> "p" [] op = "openFailStatus" -> "s" [] op = "cmd" -> "c"
               [] op = "cmdLost" -> "l" [] op = "closeOK" -> "X" [] op = "closeErr" -> "e" [] op = "closeLost" -> "x"
+              [] op = "closeAgainOK" -> "A" [] op = "closeAgainLost" -> "a"
 RECURSIVE Name(_)
 Name(p) == IF p = <<>> THEN "" ELSE Code(Head(p)) \o Name(Tail(p))
 RECURSIVE Weight(_)
 Weight(p) == IF p = <<>> THEN 0 ELSE (Len(p) * (CASE Head(p) = "openOK" -> 1 [] Head(p) = "openFailPw" -> 2 [] Head(p) = "openFailStatus" -> 3 [] Head(p) = "cmd" -> 5
-                                                [] Head(p) = "cmdLost" -> 7 [] Head(p) = "closeOK" -> 11 [] Head(p) = "closeErr" -> 13 [] OTHER -> 17)) + Weight(Tail(p))
+                                                [] Head(p) = "cmdLost" -> 7 [] Head(p) = "closeOK" -> 11 [] Head(p) = "closeErr" -> 13 [] Head(p) = "closeLost" -> 17 [] Head(p) = "closeAgainOK" -> 19 [] OTHER -> 23)) + Weight(Tail(p))
 =============================================================================
